@@ -1118,7 +1118,46 @@ def _set_insert(ctx, args, ck):
     return True
 
 
-@model('HashMap::get', 'BTreeMap::get', 'HashMap::get_mut', 'BTreeMap::get_mut')
+def symbolic_map_read(ctx, mp, key):
+    """Read-only lookup of a symbolic integer key in a map with concrete, distinct integer keys and integer values:
+    returns (presence condition, value as if-then-else term) - one fork instead of one per entry."""
+    k = ctx.m.peel(key)
+    if not (isinstance(k, Int) and k.sym()) or len(mp.entries) < 4:
+        return None
+    seen = set()
+    vty = None
+    for e in mp.entries:
+        ek, ev = e[0], e[1]
+        if not (isinstance(ek, Int) and isinstance(ek.v, int)) or ek.v in seen or not isinstance(ev, Int):
+            return None
+        seen.add(ek.v)
+        if vty is None:
+            vty = ev.ty
+        elif vty != ev.ty:
+            return None
+    bits = k.bits
+    conds = [k.v == z3.BitVecVal(e[0].v, bits) for e in mp.entries]
+    val = mp.entries[-1][1].z()
+    for c, e in zip(reversed(conds[:-1]), reversed(mp.entries[:-1])):
+        val = z3.If(c, e[1].z(), val)
+    ws = {ctx.char_width(e[1]) for e in mp.entries} if vty == 'char' and all(isinstance(e[1].v, int) for e in mp.entries) else set()
+    return z3.Or(*conds), Int(val, vty, ws.pop() if len(ws) == 1 else None)
+
+
+@model('HashMap::get', 'BTreeMap::get')
+def _map_get_ro(ctx, args, ck):
+    mp = as_map(ctx, args[0])
+    sr = symbolic_map_read(ctx, mp, args[1])
+    if sr is not None:
+        present, val = sr
+        if ctx.branch(present):
+            return Some(Ref([val], 0))
+        return NONE()
+    e = map_find(ctx, mp, args[1])
+    return Some(Ref(e, 1)) if e is not None else NONE()
+
+
+@model('HashMap::get_mut', 'BTreeMap::get_mut')
 def _map_get(ctx, args, ck):
     e = map_find(ctx, as_map(ctx, args[0]), args[1])
     return Some(Ref(e, 1)) if e is not None else NONE()
